@@ -522,7 +522,7 @@ static size_t gen_imsg(char *out, const int *idx, int n) {
 }
 
 void dom_p21(void) {
-    unsigned long cnt = h_thorough ? 1200000 : 120000;
+    unsigned long cnt = h_thorough ? 1200000 : 40000;
     static char line[140000], table[30000], msg[4096]; int idx[40], n;
     static const int evregs[] = {6, 9, 6, 9, 4, 7, 2, 3, 1};   /* OPERC QUESC (twice as often) OPER QUES ESR ESE SRE */
     for (; cnt; cnt--) {
